@@ -1061,6 +1061,7 @@ int main(int argc, char** argv) {
   SH = (Shared*)mmap(nullptr, sizeof(Shared), PROT_READ | PROT_WRITE, MAP_SHARED | MAP_ANONYMOUS, -1, 0);
   SR = (SchedRecord*)mmap(nullptr, sizeof(SchedRecord), PROT_READ | PROT_WRITE, MAP_SHARED | MAP_ANONYMOUS, -1, 0);
   g_cov = (uint8_t*)mmap(nullptr, g_cov_n + 16, PROT_READ | PROT_WRITE, MAP_SHARED | MAP_ANONYMOUS, -1, 0);
+  g_pairs = (uint8_t*)mmap(nullptr, 8192, PROT_READ | PROT_WRITE, MAP_SHARED | MAP_ANONYMOUS, -1, 0);
   g_planbuf = (PlanBuf*)mmap(nullptr, sizeof(PlanBuf), PROT_READ | PROT_WRITE, MAP_SHARED | MAP_ANONYMOUS, -1, 0);
   if (SH == MAP_FAILED || SR == MAP_FAILED || g_cov == MAP_FAILED || g_planbuf == MAP_FAILED) { perror("mmap"); return 2; }
   g_fd_out = memfd_create("xrlsim-stdout", 0);
@@ -1238,6 +1239,9 @@ int main(int argc, char** argv) {
       f = fopen(path.c_str(), "w");
       if (f) { for (auto& kv : byfn) fprintf(f, "%s %d %d\n", kv.first.c_str(), kv.second.first, kv.second.second); fclose(f); }
     }
+    path = O.outdir + "/" + O.tag + ".pairs";
+    f = fopen(path.c_str(), "wb");
+    if (f) { if (g_pairs && g_pairs != (uint8_t*)MAP_FAILED) fwrite(g_pairs, 1, 8192, f); fclose(f); }
     path = O.outdir + "/" + O.tag + ".sched";
     f = fopen(path.c_str(), "wb");
     if (f) { for (uint64_t h : TT.sched_hashes) fwrite(&h, 8, 1, f); fclose(f); }
